@@ -38,6 +38,7 @@ def handleLine (line : String) : String :=
     let (args, obs) := splitObserved rest
     match suite with
     | "c11" => C11.handle args obs
+    | "c11c" => C11.handleCtor args obs
     | "c11t" => C11.handleStress args obs
     | "c14" => viaSpec (C14.handle args) obs
     | "c14a" => viaSpec (C14.handleAscii args) obs
@@ -61,6 +62,7 @@ def handleLine (line : String) : String :=
     | "c12" => C12.handleLimit args obs
     | "c12e" => C12.handleEmfile args obs
     | "c13" => C12.handleShutdown args obs
+    | "c13e" => C12.handleShutdownEmfile args obs
     | "c19s" => C19.handleSet args obs
     | "c19w" => C19.handleWriter args obs
     | "c20e" => C20.handleError args obs
